@@ -356,3 +356,373 @@ package mcap
     touches it
     ensures wfIndexed(it) && (it.hasReadSummarySection ==> it.fileSize >= 28)
 @*/
+
+// ---------------------------------------------------------------------------------------------
+// Writer (writer.go, write_sizer.go, crc_writer.go, counting_writer.go)
+//
+// Ghost state (DESIGN §3): for an io.Writer value x, failed(x) = some Write on x returned an error,
+// offered(x) = bytes offered to x so far. sinkS(ws) is the destination a writeSizer finally writes to.
+
+/*@ spec failed(x) = ghost(wr_failed, x)
+    spec offered(x) = ghost(wr_offered, x)
+    spec sinkS(ws) = ite(ws.crc != nil, ws.crc.w, ws.w)
+    spec wfSizer(ws) = ws != nil && (ws.crc != nil ==> ws.crc.w != nil && ws.crc.crc != nil) && (ws.crc == nil ==> ws.w != nil)
+    spec wfCounting(c) = c != nil && c.w != nil && c.crc != nil
+    spec sink(w) = sinkS(w.w)
+@*/
+
+/*@ func (*writeSizer).Write
+    tags C14
+    safety C14
+    requires wfSizer(w) && !failed(sinkS(w))
+    touches w
+    writesto sinkS(w)
+    ensures wfSizer(w) && sinkS(w) == old(sinkS(w))
+    ensures failed(sinkS(w)) == (r1 != nil)
+    ensures offered(sinkS(w)) == old(offered(sinkS(w))) + len(p)
+    ensures w.size == wrap64(old(w.size) + len(p))
+    ensures r0 >= 0 && r0 <= len(p) && (r0 < len(p) ==> r1 != nil)
+@*/
+
+/*@ func (*writeSizer).Size
+    safety C14
+    requires w != nil
+    ensures result == w.size
+@*/
+
+/*@ func (*writeSizer).Checksum
+    safety C14
+    requires wfSizer(w)
+@*/
+
+/*@ func (*writeSizer).ResetCRC
+    safety C14
+    requires wfSizer(w)
+    touches w.crc
+    ensures wfSizer(w) && sinkS(w) == old(sinkS(w)) && w.size == old(w.size)
+@*/
+
+/*@ func newWriteSizer
+    safety C14
+    requires w != nil
+    ensures fresh(result) && wfSizer(result) && sinkS(result) == w && result.size == 0
+@*/
+
+/*@ func (*countingCRCWriter).Write
+    tags C14
+    safety C14
+    requires wfCounting(c) && !failed(c.w)
+    touches c
+    writesto c.w
+    ensures wfCounting(c) && c.w == old(c.w)
+    ensures failed(c.w) == (r1 != nil)
+    ensures c.size == old(c.size) + len(p) || c.size == old(c.size) + len(p) - 18446744073709551616
+    ensures r0 >= 0 && r0 <= len(p) && (r0 < len(p) ==> r1 != nil)
+@*/
+
+/*@ func (*crcWriter).Write
+    inline
+@*/
+/*@ func (*crcWriter).Checksum
+    inline
+@*/
+/*@ func (*crcWriter).Reset
+    inline
+@*/
+/*@ func (*Writer).writeRecord
+    inline
+@*/
+
+/*@ spec wfMsgIndex(idx) = idx != nil && 0 <= idx.currentIndex && idx.currentIndex <= len(idx.Records)
+    spec wfWriter(w) = w != nil && w.opts != nil && wfSizer(w.w) && w.Statistics != nil && len(w.buf) >= 9
+        && w.channels != nil && w.schemas != nil && w.messageIndexes != nil && w.Statistics.ChannelMessageCounts != nil
+        && (w.opts.Chunked ==> wfCounting(w.compressedWriter) && w.compressed != nil && w.compressedWriter.w != sink(w))
+    spec wfIndexes(w) = forall(k, 0, 65536, in(w.messageIndexes, k) ==> wfMsgIndex(w.messageIndexes[k]))
+    spec wfLists(w) = forall(k, 0, len(w.ChunkIndexes), w.ChunkIndexes[k] != nil)
+        && forall(k, 0, len(w.AttachmentIndexes), w.AttachmentIndexes[k] != nil)
+        && forall(k, 0, len(w.MetadataIndexes), w.MetadataIndexes[k] != nil)
+        && forall(k, 0, 65536, in(w.channels, k) ==> w.channels[k] != nil)
+    spec okSink(w) = !failed(sink(w))
+    spec okSinks(w) = !failed(sink(w)) && (w.opts.Chunked && !w.closed ==> !failed(w.compressedWriter.w))
+@*/
+
+/*@ func (*MessageIndex).Add
+    safety C14
+    requires wfMsgIndex(idx)
+    touches idx
+    ensures wfMsgIndex(idx)
+@*/
+/*@ func (*MessageIndex).Entries
+    safety C14
+    requires wfMsgIndex(idx)
+    ensures len(result) == idx.currentIndex
+@*/
+
+/*@ func (*Writer).ensureSized
+    safety C14
+    requires w != nil && 0 <= n && n < 4611686018427387904
+    touches w
+    ensures len(w.msg) >= n
+    ensures w.opts == old(w.opts) && w.w == old(w.w) && w.Statistics == old(w.Statistics) && w.buf == old(w.buf) && len(w.buf) == old(len(w.buf))
+    ensures w.channels == old(w.channels) && w.schemas == old(w.schemas) && w.messageIndexes == old(w.messageIndexes)
+    ensures w.compressedWriter == old(w.compressedWriter) && w.compressed == old(w.compressed) && w.closed == old(w.closed)
+@*/
+
+/*@ func (*Writer).WriteHeader
+    tags C14
+    safety C14
+    requires wfWriter(w) && header != nil && okSink(w)
+    writesto sink(w)
+    ensures wfWriter(w) && sink(w) == old(sink(w))
+    ensures failed(sink(w)) ==> r0 != nil
+@*/
+
+/*@ func (*Writer).WriteFooter
+    tags C14
+    safety C14
+    requires wfWriter(w) && f != nil && okSink(w)
+    writesto sink(w)
+    ensures wfWriter(w) && sink(w) == old(sink(w))
+    ensures failed(sink(w)) ==> r0 != nil
+@*/
+
+/*@ func (*Writer).WriteDataEnd
+    tags C14
+    safety C14
+    requires wfWriter(w) && e != nil && okSink(w)
+    writesto sink(w)
+    ensures wfWriter(w) && sink(w) == old(sink(w))
+    ensures failed(sink(w)) ==> r0 != nil
+@*/
+
+/*@ func (*Writer).WriteSummaryOffset
+    tags C14
+    safety C14
+    requires wfWriter(w) && s != nil && okSink(w)
+    writesto sink(w)
+    ensures wfWriter(w) && sink(w) == old(sink(w))
+    ensures failed(sink(w)) ==> r0 != nil
+@*/
+
+/*@ func (*Writer).WriteMetadataIndex
+    tags C14
+    safety C14
+    requires wfWriter(w) && idx != nil && okSink(w)
+    writesto sink(w)
+    ensures wfWriter(w) && sink(w) == old(sink(w))
+    ensures failed(sink(w)) ==> r0 != nil
+@*/
+
+/*@ func (*Writer).WriteAttachmentIndex
+    tags C14
+    safety C14
+    requires wfWriter(w) && idx != nil && okSink(w)
+    writesto sink(w)
+    ensures wfWriter(w) && sink(w) == old(sink(w))
+    ensures failed(sink(w)) ==> r0 != nil
+@*/
+
+/*@ func (*countingCRCWriter).Size
+    safety C14
+    requires c != nil
+    ensures result == c.size
+@*/
+/*@ func (*countingCRCWriter).CRC
+    safety C14
+    requires wfCounting(c)
+    touches nothing
+    writesto nothing
+@*/
+/*@ func (*countingCRCWriter).Close
+    safety C14
+    requires wfCounting(c)
+    touches nothing
+    writesto nothing
+@*/
+/*@ func (*countingCRCWriter).Reset
+    safety C14
+    requires wfCounting(c)
+    touches nothing
+    writesto nothing
+@*/
+/*@ func (*countingCRCWriter).ResetCRC
+    safety C14
+    requires wfCounting(c)
+    touches nothing
+    writesto nothing
+@*/
+/*@ func (*countingCRCWriter).ResetSize
+    safety C14
+    requires c != nil
+    touches c
+    ensures c.size == 0 && c.w == old(c.w) && c.crc == old(c.crc)
+@*/
+
+/*@ func makePrefixedMap
+    safety C14
+    ensures len(result) >= 4
+    loop 1 invariant maplen >= 0 && len(mapkeys) >= 0
+    loop 2 invariant offset >= 4
+@*/
+
+/*@ func (*Writer).Offset
+    safety C14
+    requires wfWriter(w)
+@*/
+
+/*@ func (*Writer).AddSchema
+    safety C14
+    requires wfWriter(w) && s != nil
+    touches w, w.Statistics
+    ensures wfWriter(w) && sink(w) == old(sink(w)) && w.opts == old(w.opts) && w.closed == old(w.closed)
+    ensures old(wfLists(w)) ==> wfLists(w)
+    ensures old(wfIndexes(w)) ==> wfIndexes(w)
+@*/
+/*@ func (*Writer).AddChannel
+    safety C14
+    requires wfWriter(w) && c != nil
+    touches w, w.Statistics
+    ensures wfWriter(w) && sink(w) == old(sink(w)) && w.opts == old(w.opts) && w.closed == old(w.closed)
+    ensures old(wfLists(w)) ==> wfLists(w)
+    ensures old(wfIndexes(w)) ==> wfIndexes(w)
+@*/
+
+/*@ func (*Writer).WriteSchema
+    tags C14
+    safety C14
+    requires wfWriter(w) && okSinks(w)
+    writesto sink(w), w.compressedWriter.w
+    ensures wfWriter(w) && sink(w) == old(sink(w)) && w.opts == old(w.opts) && w.closed == old(w.closed)
+    ensures old(wfLists(w)) ==> wfLists(w)
+    ensures old(wfIndexes(w)) ==> wfIndexes(w)
+    ensures failed(sink(w)) ==> err != nil
+    ensures w.opts.Chunked && !old(w.closed) ==> (failed(w.compressedWriter.w) ==> err != nil)
+@*/
+
+/*@ func (*Writer).WriteChannel
+    tags C14
+    safety C14
+    requires wfWriter(w) && c != nil && okSinks(w)
+    writesto sink(w), w.compressedWriter.w
+    ensures wfWriter(w) && sink(w) == old(sink(w)) && w.opts == old(w.opts) && w.closed == old(w.closed)
+    ensures old(wfLists(w)) ==> wfLists(w)
+    ensures old(wfIndexes(w)) ==> wfIndexes(w)
+    ensures failed(sink(w)) ==> r0 != nil
+    ensures w.opts.Chunked && !old(w.closed) ==> (failed(w.compressedWriter.w) ==> r0 != nil)
+@*/
+
+/*@ func (*Writer).WriteMessageIndex
+    tags C14
+    safety C14
+    requires wfWriter(w) && wfMsgIndex(idx) && okSink(w)
+    writesto sink(w)
+    ensures wfWriter(w) && sink(w) == old(sink(w))
+    ensures failed(sink(w)) ==> r0 != nil
+    loop 1 invariant offset == 6 + 16 * iter && iter <= idx.currentIndex && len(w.msg) >= 6 + 16 * idx.currentIndex
+@*/
+
+/*@ func (*Writer).WriteStatistics
+    tags C14
+    safety C14
+    requires wfWriter(w) && s != nil && okSink(w)
+    writesto sink(w)
+    ensures wfWriter(w) && sink(w) == old(sink(w))
+    ensures failed(sink(w)) ==> r0 != nil
+@*/
+
+/*@ func (*Writer).WriteMetadata
+    tags C14
+    safety C14
+    requires wfWriter(w) && m != nil && okSink(w)
+    writesto sink(w)
+    ensures wfWriter(w) && sink(w) == old(sink(w))
+    ensures failed(sink(w)) ==> r0 != nil
+@*/
+
+/*@ func (*Writer).WriteChunkIndex
+    tags C14
+    safety C14
+    requires wfWriter(w) && idx != nil && okSink(w)
+    writesto sink(w)
+    ensures wfWriter(w) && sink(w) == old(sink(w))
+    ensures failed(sink(w)) ==> r0 != nil
+@*/
+
+/*@ func (*Writer).WriteChunkWithIndexes
+    tags C14
+    safety C14
+    requires wfWriter(w) && c != nil && okSink(w)
+    requires forall(k, 0, len(messageIndexes), wfMsgIndex(messageIndexes[k]))
+    writesto sink(w)
+    ensures wfWriter(w) && sink(w) == old(sink(w)) && w.opts == old(w.opts)
+    ensures failed(sink(w)) ==> r0 != nil
+    ensures old(wfLists(w)) ==> wfLists(w)
+    ensures old(wfIndexes(w)) ==> wfIndexes(w)
+    loop 1 invariant wfWriter(w) && sink(w) == old(sink(w)) && w.opts == old(w.opts) && !failed(sink(w)) && messageIndexOffsets != nil
+@*/
+
+/*@ func (*Writer).flushActiveChunk
+    tags C14
+    safety C14
+    requires wfWriter(w) && wfIndexes(w) && w.opts.Chunked && okSinks(w)
+    writesto sink(w), w.compressedWriter.w
+    ensures wfWriter(w) && wfIndexes(w) && sink(w) == old(sink(w)) && w.opts == old(w.opts)
+    ensures old(wfLists(w)) ==> wfLists(w)
+    ensures failed(sink(w)) ==> r0 != nil
+    loop 1 invariant wfWriter(w) && wfIndexes(w) && sink(w) == old(sink(w)) && w.opts == old(w.opts) && okSinks(w)
+        && forall(k, 0, len(messageIndexes), wfMsgIndex(messageIndexes[k])) && (old(wfLists(w)) ==> wfLists(w))
+    loop 2 invariant wfWriter(w) && wfIndexes(w) && sink(w) == old(sink(w)) && w.opts == old(w.opts) && okSinks(w) && (old(wfLists(w)) ==> wfLists(w))
+@*/
+
+/*@ func (*Writer).WriteMessage
+    tags C14
+    safety C14
+    requires wfWriter(w) && wfIndexes(w) && m != nil && okSinks(w)
+    writesto sink(w), w.compressedWriter.w
+    ensures wfWriter(w) && wfIndexes(w) && sink(w) == old(sink(w)) && w.opts == old(w.opts)
+    ensures failed(sink(w)) ==> r0 != nil
+@*/
+
+/*@ func newCRCWriter
+    inline
+@*/
+
+/*@ func (*Writer).WriteAttachment
+    tags C14
+    safety C14
+    requires wfWriter(w) && a != nil && a.Data != nil && okSink(w)
+    ensures wfWriter(w) && sink(w) == old(sink(w))
+    ensures failed(sink(w)) ==> r0 != nil
+@*/
+
+/*@ func (*Writer).writeSummarySection
+    tags C14
+    safety C14
+    requires wfWriter(w) && wfIndexes(w) && wfLists(w) && okSinks(w) && w.closed
+    writesto sink(w), w.compressedWriter.w
+    ensures wfWriter(w) && sink(w) == old(sink(w)) && w.opts == old(w.opts) && w.closed
+    ensures failed(sink(w)) ==> r1 != nil
+    ensures forall(k, 0, len(r0), r0[k] != nil)
+    loop 1 invariant wfWriter(w) && sink(w) == old(sink(w)) && w.opts == old(w.opts) && w.closed && okSinks(w) && wfLists(w) && wfIndexes(w) && forall(k, 0, len(offsets), offsets[k] != nil)
+    loop 2 invariant wfWriter(w) && sink(w) == old(sink(w)) && w.opts == old(w.opts) && w.closed && okSinks(w) && wfLists(w) && wfIndexes(w) && forall(k, 0, len(offsets), offsets[k] != nil)
+    loop 3 invariant wfWriter(w) && sink(w) == old(sink(w)) && w.opts == old(w.opts) && w.closed && okSinks(w) && wfLists(w) && wfIndexes(w) && forall(k, 0, len(offsets), offsets[k] != nil)
+    loop 4 invariant wfWriter(w) && sink(w) == old(sink(w)) && w.opts == old(w.opts) && w.closed && okSinks(w) && wfLists(w) && wfIndexes(w) && forall(k, 0, len(offsets), offsets[k] != nil)
+    loop 5 invariant wfWriter(w) && sink(w) == old(sink(w)) && w.opts == old(w.opts) && w.closed && okSinks(w) && wfLists(w) && wfIndexes(w) && forall(k, 0, len(offsets), offsets[k] != nil)
+@*/
+
+/*@ func (*Writer).Close
+    tags C14
+    safety C14
+    requires wfWriter(w) && wfIndexes(w) && wfLists(w) && okSinks(w)
+    writesto sink(w), w.compressedWriter.w
+    ensures failed(sink(w)) ==> r0 != nil
+    loop 1 invariant wfWriter(w) && sink(w) == old(sink(w)) && w.opts == old(w.opts) && !failed(sink(w)) && forall(k, 0, len(summaryOffsets), summaryOffsets[k] != nil)
+@*/
+
+/*@ func NewWriter
+    tags C14
+    safety C14
+    requires w != nil && opts != nil && !failed(w)
+    ensures r1 == nil ==> wfWriter(r0) && wfIndexes(r0) && sink(r0) == w
+    ensures failed(w) ==> r1 != nil
+@*/
